@@ -196,6 +196,10 @@ func mgmtExec(t *testing.T, w *traceWriter, conf mgConf, next func(e int) *mgCmd
 				return src.datas
 			}
 			observe := func(nonce int) map[string]any {
+				// a dataset the command itself may have asked for a moment ago (verbs list / info / general are drawn as commands too)
+				// would be answered from the cache: let it go stale before the tables are read
+				time.Sleep(2 * time.Second)
+				synctest.Wait()
 				rs := ribRoutes()
 				ss := []map[string]any{}
 				for _, e := range table.FibStrategyTable.GetAllForwardingStrategies() {
